@@ -45,6 +45,47 @@ enum P {
     Const(bool),
     /// a boolean column used directly as a predicate
     BoolCol(usize),
+    /// `t IS NULL` (false) / `t IS NOT NULL` (true) where t is a column or a term that absorbs NULLs
+    NullTest(NT, bool),
+}
+
+/// the operand of a NULL test: a column, coalesce(col, col), coalesce(col, 0)
+#[derive(Clone, Debug, PartialEq)]
+enum NT {
+    Col(usize),
+    Coalesce(usize, usize),
+    CoalesceLit(usize),
+}
+
+impl NT {
+    fn expr(&self, names: &[Vec<String>]) -> Expr {
+        match self {
+            NT::Col(c) => col_expr(names, *c),
+            NT::Coalesce(c, d) => Expr::coalesce(col_expr(names, *c), col_expr(names, *d)),
+            NT::CoalesceLit(c) => Expr::coalesce(col_expr(names, *c), Expr::val(Value::integer(0))),
+        }
+    }
+    fn show(&self, names: &[Vec<String>]) -> String {
+        match self {
+            NT::Col(c) => names[*c].join("."),
+            NT::Coalesce(c, d) => format!("coalesce({}, {})", names[*c].join("."), names[*d].join(".")),
+            NT::CoalesceLit(c) => format!("coalesce({}, 0)", names[*c].join(".")),
+        }
+    }
+    fn shape(&self) -> &'static str {
+        match self {
+            NT::Col(_) => "col",
+            NT::Coalesce(_, _) => "coalesce(col,col)",
+            NT::CoalesceLit(_) => "coalesce(col,lit)",
+        }
+    }
+    fn is_null(&self, row: &[Value]) -> bool {
+        match self {
+            NT::Col(c) => scalar(&row[*c]) == Sc::Null,
+            NT::Coalesce(c, d) => scalar(&row[*c]) == Sc::Null && scalar(&row[*d]) == Sc::Null,
+            NT::CoalesceLit(_) => false,
+        }
+    }
 }
 
 fn col_expr(names: &[Vec<String>], i: usize) -> Expr {
@@ -132,6 +173,14 @@ impl P {
             P::Not(a) => Expr::not(a.expr(names)),
             P::Const(b) => Expr::val(*b),
             P::BoolCol(c) => col_expr(names, *c),
+            P::NullTest(t, not) => {
+                let e = Expr::is_null(t.expr(names));
+                if *not {
+                    Expr::not(e)
+                } else {
+                    e
+                }
+            }
         }
     }
     fn shape(&self) -> String {
@@ -143,6 +192,7 @@ impl P {
             P::Not(a) => format!("Not({})", a.shape()),
             P::Const(b) => format!("{b}"),
             P::BoolCol(_) => "boolcol".into(),
+            P::NullTest(t, not) => format!("{}({})", if *not { "IsNotNull" } else { "IsNull" }, t.shape()),
         }
     }
     fn show(&self, names: &[Vec<String>]) -> String {
@@ -166,6 +216,7 @@ impl P {
             P::Not(a) => format!("NOT ({})", a.show(names)),
             P::Const(b) => format!("{b}"),
             P::BoolCol(c) => names[*c].join("."),
+            P::NullTest(t, not) => format!("{} IS {}NULL", t.show(names), if *not { "NOT " } else { "" }),
         }
     }
     fn cols(&self, out: &mut Vec<usize>) {
@@ -181,6 +232,11 @@ impl P {
             }
             P::Not(a) => a.cols(out),
             P::BoolCol(c) => out.push(*c),
+            P::NullTest(NT::Col(c), _) | P::NullTest(NT::CoalesceLit(c), _) => out.push(*c),
+            P::NullTest(NT::Coalesce(c, d), _) => {
+                out.push(*c);
+                out.push(*d)
+            }
             P::Const(_) => {}
         }
     }
@@ -243,6 +299,7 @@ fn eval3(p: &P, row: &[Value]) -> Option<bool> {
             Sc::Bool(b) => Some(b),
             _ => None,
         },
+        P::NullTest(t, not) => Some(t.is_null(row) != *not),
         P::Cmp(op, l, r) => {
             let (a, b) = (term(l, row), term(r, row));
             let ord = match (&a, &b) {
@@ -478,6 +535,18 @@ fn atoms(kinds: &[&'static str], tier: Tier) -> Vec<P> {
     for c in (0..kinds.len()).filter(|i| matches!(kinds[*i], "bool" | "opt-bool")) {
         out.push(P::BoolCol(c));
     }
+    // NULL tests of a column and of terms that absorb NULLs (a NULL operand does not make them NULL)
+    for &c in &num {
+        for not in [true, false] {
+            out.push(P::NullTest(NT::Col(c), not));
+            out.push(P::NullTest(NT::CoalesceLit(c), not));
+            for &d in &num {
+                if c != d {
+                    out.push(P::NullTest(NT::Coalesce(c, d), not));
+                }
+            }
+        }
+    }
     out.push(P::Const(true));
     out.push(P::Const(false));
     out
@@ -550,6 +619,7 @@ fn arm_of(p: &P) -> String {
         P::Not(_) => "Not".into(),
         P::Const(_) => "Const".into(),
         P::BoolCol(_) => "BoolCol".into(),
+        P::NullTest(t, not) => format!("{}:{}", if *not { "IsNotNull" } else { "IsNull" }, t.shape()),
     }
 }
 
